@@ -4,13 +4,15 @@ reserved names.
 corr  : the Lean model of `_Identifiers` + `write_variable_declares` + `__M_locals` (driver op `names`) against the
         real code generator: for every generated function of a template the SET of declaration statements read out
         of `Template.code` with `ast` (context fetches in their four shapes, namespace fetches, def stubs with /
-        without `context._locals(__M_locals)`, inline defs, `loop`, `__M_locals` keys), the reserved-name verdict,
-        and the value every read site observes at render time against the model's resolution.  `Context`
-        operations (`_locals/_copy/_clean_inheritance_tokens/kwargs`) against the heap model.
+        without `context._locals(__M_locals)`, inline defs, `loop`, `__M_locals` keys), separately their ORDER and the
+        key lists of every `__M_locals.update(...)`, the reserved-name verdict, and the value every read site observes
+        at render time against the model's resolution.  `Context` operations (`_locals/_copy/
+        _clean_inheritance_tokens/kwargs`) against the heap model; the render entry forms against `renderEntry`.
 oracle: no Lean: a reference interpreter of the generator's tree (harness/c04_gen.py `Reference`, the resolution
         order of the property text) predicts the marker every read site must observe; the caller's dict and
-        `context.kwargs` are deep-compared around every render; reserved names at every render entry point and in
-        every assignment form; Python statement forms in a `<% %>` block against native execution.
+        `context.kwargs` are deep-compared around every render; context entries of every falsy / None value must stay
+        bound; reserved names at every render entry form (fresh / reused / running context, include args) and in every
+        binding form; Python statement forms in a `<% %>` block against native execution.
 """
 from __future__ import annotations
 
@@ -23,16 +25,21 @@ from harness.common import enc, dec
 from harness import c04_gen as G, c04_model as Mo, c04_cases as Cs
 
 REGEN = ["Names"]
-RULE = ("templates are generated from a tree with ground truth: probe names bound at one of {context, page arg, "
-        "page arg reassigned by a body <% %> block (once, twice, in a control block), body <% %> assignment, def argument, enclosing-def local, loop target (body / def), module-level <%! %>, "
-        "imported def, builtin, nowhere} (x the name is also in the context or not) and read at one of 16 placements "
-        "of the 9 read sites {body, top-level def, nested def, anonymous block, named block, call body, control "
-        "line, tag attribute, filter} hosted in the body or in a top-level def, x strict_undefined x an unrelated "
-        "<%namespace import> present: exhaustive; random combinations of 2-4 probes with 1-3 placements each; "
-        "extended cases (bindings inside blocks / call bodies, defs of a <%call>, reassignment between calls, "
-        "reserved names in every binding form and at every render entry point, statement forms vs native exec); "
-        "random scope trees over a 6-name pool for the declaration sets. Every binding site writes a distinct "
-        "marker; a case is non-trivial when at least one read site resolves to something else than UNDEFINED; "
+RULE = ("templates are generated from a tree with ground truth: probe names bound at one of 13 sites {context, page arg, "
+        "page arg reassigned by a body <% %> block (once / twice / inside a control block), body <% %> assignment, def "
+        "argument, enclosing-def local, loop target (body / def), module-level <%! %>, imported def, builtin, nowhere} "
+        "(x the name is also in the context or not) and read at one of 16 placements of the 9 read sites {body, "
+        "top-level def, nested def, anonymous block, named block, call body, control line, tag attribute, filter} "
+        "hosted in the body or in a top-level def, x strict_undefined x an unrelated <%namespace import> present: "
+        "exhaustive (1664 templates); random combinations of 2-4 probes with 1-3 placements each (shrunk by ddmin over "
+        "the probes); 30 extended cases (+3 strict-only; bindings inside blocks / call bodies, defs of a <%call>, reassignment between "
+        "calls, comprehension variables, def parameters) x strict x ns-import; context entries bound to None / 0 / '' / "
+        "[] / False / UNDEFINED / 's' under the keys x, id, len, read implicitly in five kinds of scope and through "
+        "context['k'] / context.get / keys / kwargs; reserved names in 40 binding forms x 4 names x 3 loop "
+        "configurations and at 14 render entry forms; 45 Python statement forms in a <% %> block vs native execution; "
+        "Context operation sequences (_locals/_copy/_clean_inheritance_tokens/kwargs); 8 context.kwargs templates; "
+        "random scope trees over a 6-name pool for the declaration sets (structure only). Every binding site writes a "
+        "distinct marker; a case is non-trivial when at least one read site observes something else than UNDEFINED; "
         "distinct = distinct (template source, data keys, strict)")
 ASSUMPTIONS = [
     "Python's own scoping of the emitted code (closures, locals()) is assumed, validated by running the generated module",
@@ -404,7 +411,7 @@ def run_cases(ctx, cases, cstream, ostream):
     drv = ctx.driver()
     bi = builtin_names()
     st_c = ctx.stream(cstream)
-    st_o = ctx.stream(ostream, "oracle")
+    st_o = None      # the oracle stream is registered only when a case of this list is rendered
     prepared = []
     reqs = []
     for case in cases:
@@ -457,6 +464,8 @@ def run_cases(ctx, cases, cstream, ostream):
         for sc in full["scopes"].values():
             for n, (impl, val, spec) in sc["res"].items():
                 ctx.branch("lean-spec-vs-impl:" + ("same" if val == spec else "differ"))
+        if st_o is None:
+            st_o = ctx.stream(ostream, "oracle")
         st_o["cases"] += 1
         if any(o != "UNDEF" for _s, o in records):
             ctx.nontriv((case.src, tuple(sorted(case.data)), case.strict))
@@ -660,7 +669,7 @@ def reserved_names(ctx):
                                   "oracle.reserved_forms")
                 if not reserved_now and got:
                     violation(ctx, "free-name-rejected", {"input": src, "form": form, "name": name, "config": cfg}, str(cexc)[:100], "oracle.reserved_forms")
-    run_cases(ctx, cases, "corr.reserved_forms", "oracle.reserved_forms_render")
+    run_cases(ctx, cases, "corr.reserved_forms", None)
     # (ii) render entry points
     sc = ctx.stream("corr.render_entries", exhaustive=True)
     so = ctx.stream("oracle.render_entries", "oracle", exhaustive=True)
@@ -922,7 +931,7 @@ def random_trees(ctx):
         g = Ex.TreeGen(ctx.rng)
         src = g.template()
         cases.append(Case({"tree": i}, src, {}, ctx.rng.random() < 0.3, ctx.rng.random() < 0.85, "tree"))
-    run_cases(ctx, cases, "corr.random_trees", "oracle.unused")
+    run_cases(ctx, cases, "corr.random_trees", None)
 
 
 def corr_and_oracle(ctx):
